@@ -152,6 +152,28 @@ def run(tier):
             acts.append(eval_action(aw + tailw, presrc=how, filetext=T(ftext), envstr=T(join_words(r_, ew)) if ew else [], prog=T("prog"),
                                     tag={"k": "src-multi"}))
         blocks.append((cfg, acts))
+    # ---- T2c: the last word of a file line / of the environment string ends with an escaped blank or tab (or is a quoted word that ends
+    #           with blanks): what is behind the last backslash belongs to the word, whatever follows the word on the line
+    for _ in range(30 if tier == "quick" else 600):
+        cfg = g.cfg(nargs=r_.randint(2, 4), kinds=["str", "str", "int", "flag"], constraints=False, allow_pos=False)
+        strs = [i + 1 for i, a in enumerate(cfg["args"]) if a["kind"] == "str" and not a["checks"] and not a["formats"]]
+        if not strs:
+            continue
+        for a in cfg["args"]:
+            a["mand"] = False
+        acts = []
+        for _k in range(6):
+            i = r_.choice(strs)
+            a = cfg["args"][i - 1]
+            v = r_.choice(["padded", "two", "col1\tcol2", "x", "a b"]) + r_.choice([" ", "  ", "\t", " \t", "\t "])
+            key = ("--" + S(a["l"])) if a["l"] else ("-" + chr(a["s"]))
+            sch = r_.choice(["bs", "bs", "sq", "dq"])
+            line = key + " " + esc(v, sch) + r_.choice(["", "", " ", "  "])
+            other = [u for u in (gen_valid(g, cfg) or []) if u[0] != i][:1]
+            how = r_.choice(["file", "file", "env"])
+            acts.append(eval_action(g.spell_line(cfg, other), presrc=how, filetext=T(line + r_.choice(["\n", ""])) if how == "file" else [],
+                                    envstr=T(line) if how == "env" else [], prog=T(r_.choice(PROGS)), tag={"k": "src-trailing-blank"}))
+        blocks.append((cfg, acts))
     # ---- T3: argument-file argument (addArgumentFile): files that include files, values before and after the include,
     #          overridden by a later command line value; missing files
     for _ in range(60 if tier == "quick" else 2000):
